@@ -135,6 +135,8 @@ def _isinstance(interp, st, args, kwargs):
             names |= set(x.names)
         elif isinstance(x, ExcClass):
             names.add(x.name)
+        elif isinstance(x, Model) and x.name in ('bytes', 'str', 'int', 'dict', 'list', 'set', 'bool', 'tuple'):
+            names.add(x.name)
         else:
             raise Unsupported(f'isinstance against {x!r}')
     if isinstance(v, Exc):
